@@ -32,6 +32,7 @@ EXPLANATION = (
     "quoted-string arm of _p_string unescapes \\\\ and \\\". (R8.6) both entry points decode with latin-1 and the front "
     "end re-inserts exactly CRLF after a literal header. Decides these clauses, not equality of the accepted language "
     "with the RFC 3501 grammar."
+    " R8.1 also bounds int(): a digits-only pattern of unbounded width needs a ValueError handler up to parse() (CPython refuses more than 4300 digits), and recursion cycles of the parser's call graph need a RecursionError handler at parse(); R8.3 requires the INBOX comparison to be repeated after the last normalisation of the name; flag case folding is shared with C04 R4.7."
 )
 RULE_TEXT = (
     "instances: every raise/assert/partial-operation site in the parse call graph; every return of _parse; every "
